@@ -88,6 +88,15 @@ Proof.
     rewrite IH by (try discriminate; exact Hr). cbn [rev]. rewrite <- app_assoc. reflexivity.
 Qed.
 
+Lemma quirk_plain segs : forall stack, stack <> [] -> forallb plain_seg segs = true -> quirk stack segs = false.
+Proof.
+  induction segs as [|s r IH]; intros stack Hne Hall; [reflexivity|].
+  cbn [forallb] in Hall. apply andb_true_iff in Hall as [Hs Hr].
+  apply plain_seg_facts in Hs as (_ & Hch & Hsd & Hdd & _).
+  cbn [quirk]. rewrite (enc_seg_plain s Hch), Hdd, Hsd.
+  destruct stack as [|x st]; [contradiction|]. cbn [orb]. apply IH; [discriminate | exact Hr].
+Qed.
+
 Lemma existsb_false_forallb {A} (P Q : A -> bool) l :
   (forall x, Q x = true -> P x = false) -> forallb Q l = true -> existsb P l = false.
 Proof.
@@ -159,10 +168,10 @@ Proof.
 Qed.
 
 Theorem url_join_plain base file :
-  nonempty_comps base = true -> url_plain file = true ->
+  base <> [] -> nonempty_comps base = true -> url_plain file = true ->
   url_join base file = UPath (put_comps base file) false.
 Proof.
-  intros Hbase Hp. unfold url_plain in Hp. apply andb_true_iff in Hp as [Hsch Hsegs].
+  intros Hbne Hbase Hp. unfold url_plain in Hp. apply andb_true_iff in Hp as [Hsch Hsegs].
   apply negb_true_iff in Hsch.
   assert (Hch := plain_chars _ Hsegs).
   assert (Hin : url_input file = file).
@@ -178,6 +187,9 @@ Proof.
   unfold url_join. rewrite Hin, Hsch. cbv beta iota. rewrite Hsep, Hus.
   rewrite (existsb_false_forallb is_drive plain_seg)
     by (try exact Hsegs; intros x Hx; apply plain_seg_facts in Hx; tauto).
+  rewrite quirk_plain
+    by (try exact Hsegs; intros Hr; apply (f_equal (@rev _)) in Hr; rewrite rev_involutive in Hr; exact (Hbne Hr)).
+  cbn [orb].
   rewrite walk_plain by (try exact Hsegs; apply split_slash_nonnil). rewrite rev_involutive.
   unfold put_comps. cbv beta iota. rewrite H47. rewrite std_components_plain by exact Hsegs.
   unfold path_of. rewrite filter_nonempty_id.
@@ -192,18 +204,18 @@ Qed.
 
 (* what was put under a plain name into the directory the base URL names is what a fetch finds *)
 Theorem put_then_fetch files base file v :
-  nonempty_comps base = true -> url_plain file = true ->
+  base <> [] -> nonempty_comps base = true -> url_plain file = true ->
   fs_fetch (fs_put (put_comps base file) v files) base file = FsFound v.
 Proof.
-  intros Hb Hp. unfold fs_fetch. rewrite (url_join_plain base file Hb Hp), fs_get_put_same. reflexivity.
+  intros Hne Hb Hp. unfold fs_fetch. rewrite (url_join_plain base file Hne Hb Hp), fs_get_put_same. reflexivity.
 Qed.
 
 (* and putting other files elsewhere does not disturb it *)
 Theorem put_other_keeps files base file p w :
-  nonempty_comps base = true -> url_plain file = true -> paths_eqb (put_comps base file) p = false ->
+  base <> [] -> nonempty_comps base = true -> url_plain file = true -> paths_eqb (put_comps base file) p = false ->
   fs_fetch (fs_put p w files) base file = fs_fetch files base file.
 Proof.
-  intros Hb Hp Hne. unfold fs_fetch. rewrite (url_join_plain base file Hb Hp).
+  intros Hbne Hb Hp Hne. unfold fs_fetch. rewrite (url_join_plain base file Hbne Hb Hp).
   rewrite ToughV.Proofs.TNameP.fs_get_put_other by exact Hne. reflexivity.
 Qed.
 
@@ -222,7 +234,7 @@ Qed.
 Theorem cached_target_served (H : bytes -> N) fx cfg now rp tsrv n prefix outdir f w f' w' ti :
   save_target H fx cfg now rp tsrv n prefix outdir f w = (Ok tt, f', w') ->
   find_target n (rp_targets rp) = Some ti -> ti_len ti < u64max' ->
-  forallb (fun c => negb (is_empty c)) outdir = true ->
+  outdir <> [] -> forallb (fun c => negb (is_empty c)) outdir = true ->
   url_plain (if prefix then ti_hex ti ++ [46] ++ tn_resolved n else tn_resolved n) = true ->
   exists d,
     fs_fetch (fs_files f') outdir (if prefix then ti_hex ti ++ [46] ++ tn_resolved n else tn_resolved n) = FsFound d
@@ -230,11 +242,11 @@ Theorem cached_target_served (H : bytes -> N) fx cfg now rp tsrv n prefix outdir
     /\ (exists s, tlookup (if r_cs (rp_root rp) then Some (ti_digest ti) else None, tn_resolved n) tsrv = TStream s
                   /\ d = chunk_bytes s).
 Proof.
-  intros Hs Hf Hl Ho Hp.
+  intros Hs Hf Hl Hone Ho Hp.
   destruct (cached_target_reads_back H fx cfg now rp tsrv n prefix outdir f w f' w' ti Hs Hf Hl)
     as (dest & d & Hsp & Hget & Hd & Hlen & Hsrv & _).
   exists d. repeat split; try assumption.
-  unfold fs_fetch. rewrite (url_join_plain outdir _ Ho Hp).
+  unfold fs_fetch. rewrite (url_join_plain outdir _ Hone Ho Hp).
   rewrite <- (save_path_put _ _ _ Hsp), Hget. reflexivity.
 Qed.
 
@@ -360,10 +372,10 @@ Qed.
 
 (* so a local client (FilesystemTransport) asking for a delegated role's metadata opens the entry of that very
    name directly inside the metadata directory *)
-Theorem role_file_opened base cs v name : nonempty_comps base = true -> Forall (fun c => c < 256) name ->
+Theorem role_file_opened base cs v name : base <> [] -> nonempty_comps base = true -> Forall (fun c => c < 256) name ->
   url_join base (role_filename cs v name) = UPath (base ++ [role_filename cs v name]) false.
 Proof.
-  intros Hb Hn. rewrite (url_join_plain base _ Hb (role_filename_url_plain cs v name Hn)).
+  intros Hbne Hb Hn. rewrite (url_join_plain base _ Hbne Hb (role_filename_url_plain cs v name Hn)).
   f_equal. unfold put_comps.
   pose proof (role_filename_chars cs v name Hn) as Hch.
   assert (Hns : Forall (fun c => c <> 47) (role_filename cs v name)).
